@@ -509,7 +509,14 @@ class Update(object):
                 prefix = prefix.get('prefix')
                 nlri_raw_hex += struct.pack('!I', path_id)
             masklen = prefix.split('/')[1]
-            ip_hex = struct.pack('!I', netaddr.IPNetwork(prefix).value)
+            network = netaddr.IPNetwork(prefix)
+            if network.version != 4:
+                # an IPv6 prefix whose value fits 32 bits ('::/64') would be sent with its own
+                # length octet and 4 address octets
+                raise excep.UpdateMessageError(
+                    sub_error=bgp_cons.ERR_MSG_UPDATE_INVALID_NETWORK_FIELD,
+                    data=prefix)
+            ip_hex = struct.pack('!I', network.value)
             masklen = int(masklen)
             if masklen == 0:
                 ip_hex = b''
